@@ -36,7 +36,7 @@ type rPlaced struct {
 func VerifC02_PassEndState() {
 	w := pwNew(&opopts.Options{})
 	w.addPool("pool-1", 0)
-	w.addType("it-l", resource.MustParse("16"), []pwOffer{{"zone-1", v1.CapacityTypeOnDemand, 1, true}, {"zone-2", v1.CapacityTypeOnDemand, 1, true}, {"zone-3", v1.CapacityTypeOnDemand, 1, true}})
+	w.addType("it-l", resource.MustParse("16"), []pwOffer{{zone: "zone-1", ct: v1.CapacityTypeOnDemand, price: 1, available: true}, {zone: "zone-2", ct: v1.CapacityTypeOnDemand, price: 1, available: true}, {zone: "zone-3", ct: v1.CapacityTypeOnDemand, price: 1, available: true}})
 	w.addNode("node-1", "pool-1", "it-l", v1.CapacityTypeOnDemand, "zone-1", pwList(resource.MustParse("16")), pwInitialized)
 	sel := &metav1.LabelSelector{MatchLabels: map[string]string{"app": "web"}}
 	running := w.addPod("running-1", "node-1", resource.MustParse("1"))
@@ -188,7 +188,7 @@ func VerifC02_PassEndState() {
 func VerifC02_PassRespectsRunningGuards() {
 	w := pwNew(&opopts.Options{})
 	w.addPool("pool-1", 0)
-	w.addType("it-l", resource.MustParse("16"), []pwOffer{{"zone-1", v1.CapacityTypeOnDemand, 1, true}, {"zone-2", v1.CapacityTypeOnDemand, 1, true}, {"zone-3", v1.CapacityTypeOnDemand, 1, true}})
+	w.addType("it-l", resource.MustParse("16"), []pwOffer{{zone: "zone-1", ct: v1.CapacityTypeOnDemand, price: 1, available: true}, {zone: "zone-2", ct: v1.CapacityTypeOnDemand, price: 1, available: true}, {zone: "zone-3", ct: v1.CapacityTypeOnDemand, price: 1, available: true}})
 	sel := &metav1.LabelSelector{MatchLabels: map[string]string{"app": "web"}}
 	guards := verifrt.Choice("guards", 1, verifrt.Bound("maxGuards", 2, 3))
 	key := []string{corev1.LabelTopologyZone, corev1.LabelHostname}[verifrt.Choice("topologyKey", 0, 1)]
